@@ -95,6 +95,7 @@ struct InterpreterEnv : public ScriptExecutionEnvironment {
 
     // P2SH support
     bool is_p2sh;
+    bool scriptsig_pushonly = true; ///< false once a scriptSig with non-push operations has been executed (P2SH refuses it)
     stack_type p2shstack;
 
     // Executed sigScript support (archaeology)
